@@ -136,12 +136,16 @@ def run_net(ck):
     or failing); refuse exactly when an ANSWERING peer is far off — peers that do not answer are ignored and must not
     make the node ignore the others (collectTime keeps the results it has)."""
     rng = ck.rng
-    n = 24 if ck.tier == "quick" else 150
+    n = 36 if ck.tier == "quick" else 200
     cases = [["dead", "off:3600", "ok"], ["off:-30", "dead"], ["dead", "dead", "off:10"], ["ok", "dead"], ["dead"], ["off:0.2", "ok"],
-             ["self", "ok", "off:-3600", "dead", "ok"], ["self"], ["off:3600"], ["ok", "ok", "ok"]]
+             ["self", "ok", "off:-3600", "dead", "ok"], ["self"], ["off:3600"], ["ok", "ok", "ok"],
+             # the raft state a peer reports must not matter (an election may be running while a node restarts)
+             ["ok", "off:3600@Candidate"], ["off:-30@Candidate", "ok@Leader"], ["off:10@Shutdown", "ok"], ["off:3600@Leader", "dead"],
+             ["ok@Candidate", "ok@Leader"], ["off:0.2@Candidate"]]
     while len(cases) < n:
         k = rng.randint(1, 5)
         c = [rng.choice(["ok", "ok", "dead", "dead", "off:0.2", "off:-0.3", "off:3600", "off:-3600", "off:30", "off:-10", "self"]) for _ in range(k)]
+        c = [p + rng.choice(["", "", "@Leader", "@Candidate", "@Shutdown", "@Follower"]) if p not in ("self", "dead") else p for p in c]
         cases.append(c)
     wd = vlib.workdir()
     inp, outp = os.path.join(wd, "tsgnet.in"), os.path.join(wd, "tsgnet.out")
@@ -164,7 +168,7 @@ def run_net(ck):
             got[int(f[1])] = f[2]
     dist, seen = {}, set()
     for i, c in enumerate(cases):
-        far = [p for p in c if p.startswith("off:") and abs(float(p[4:])) >= 10]
+        far = [p for p in c if p.startswith("off:") and abs(float(p[4:].split("@")[0])) >= 10]
         want = "refuse" if far else "accept"
         g = got.get(i)
         dist[want] = dist.get(want, 0) + 1
